@@ -34,6 +34,8 @@ pub mod fakestd {
 
 /// Result of exploring one scenario.
 pub struct Outcome {
+    /// True when the exploration was stopped by the wall-clock cap.
+    pub capped: bool,
     pub iterations: usize,
     /// Distinct observation strings (one per interleaving class).
     pub distinct: std::collections::BTreeSet<String>,
@@ -156,7 +158,7 @@ pub(crate) fn capture_take() -> Vec<u8> {
 
 // ---------------------------------------------------------------------------
 
-fn explore(preemption_bound: Option<usize>, max_branches: usize, f: impl Fn() + Sync + Send + 'static) -> Outcome {
+fn explore(preemption_bound: Option<usize>, max_branches: usize, cap_secs: u64, f: impl Fn() + Sync + Send + 'static) -> Outcome {
     ITER.store(0, Ordering::SeqCst);
     *FAILURE.lock().unwrap_or_else(|e| e.into_inner()) = None;
     DISTINCT.lock().unwrap_or_else(|e| e.into_inner()).clear();
@@ -164,6 +166,8 @@ fn explore(preemption_bound: Option<usize>, max_branches: usize, f: impl Fn() + 
     b.preemption_bound = preemption_bound;
     b.max_branches = max_branches;
     b.log = false;
+    b.max_duration = Some(std::time::Duration::from_secs(cap_secs));
+    let t0 = std::time::Instant::now();
     let r = std::panic::catch_unwind(std::panic::AssertUnwindSafe(|| {
         b.check(move || {
             ITER.fetch_add(1, Ordering::SeqCst);
@@ -189,6 +193,7 @@ fn explore(preemption_bound: Option<usize>, max_branches: usize, f: impl Fn() + 
         }
     }
     Outcome {
+        capped: failure.is_none() && t0.elapsed().as_secs() >= cap_secs,
         iterations: ITER.load(Ordering::SeqCst),
         distinct: std::mem::take(&mut *DISTINCT.lock().unwrap_or_else(|e| e.into_inner())),
         failure,
@@ -218,8 +223,20 @@ pub fn main(args: Vec<String>) -> i32 {
         return 2;
     }
     let bound = args[2].parse::<usize>().ok();
+    let cap_secs: u64 = args.get(3).and_then(|s| s.parse().ok()).unwrap_or(20);
     capture_init();
-    std::panic::set_hook(Box::new(|_| {}));
+    std::panic::set_hook(Box::new(|info| {
+        // Kept short: one line per panic, so that a harness death is explainable.
+        let msg = if let Some(s) = info.payload().downcast_ref::<&str>() {
+            s.to_string()
+        } else if let Some(s) = info.payload().downcast_ref::<String>() {
+            s.clone()
+        } else {
+            String::new()
+        };
+        let loc = info.location().map(|l| format!("{}:{}", l.file(), l.line())).unwrap_or_default();
+        eprintln!("PANIC at {}: {}", loc, msg.chars().take(300).collect::<String>());
+    }));
     let scn = args[1].clone();
     let out = match args[0].as_str() {
         "runner" => {
@@ -228,14 +245,14 @@ pub fn main(args: Vec<String>) -> i32 {
                 return 2;
             };
             crate::task::loomh_runner::install_hooks();
-            explore(bound, 100_000, move || crate::task::loomh_runner::body(&s))
+            explore(bound, 100_000, cap_secs, move || crate::task::loomh_runner::body(&s))
         }
         "fancy" => {
             let Some(s) = crate::progress_fancy::loomh_fancy::Scenario::parse(&scn) else {
                 eprintln!("bad scenario");
                 return 2;
             };
-            explore(bound, 100_000, move || crate::progress_fancy::loomh_fancy::body(&s))
+            explore(bound, 100_000, cap_secs, move || crate::progress_fancy::loomh_fancy::body(&s))
         }
         _ => return 2,
     };
@@ -245,11 +262,12 @@ pub fn main(args: Vec<String>) -> i32 {
     };
     let sample = out.distinct.iter().next().cloned().unwrap_or_default();
     eprintln!(
-        "LOOMH {{\"engine\":\"{}\",\"scenario\":\"{}\",\"iterations\":{},\"distinct\":{},\"ok\":{},\"key\":\"{}\",\"detail\":\"{}\",\"sample\":\"{}\"}}",
+        "LOOMH {{\"engine\":\"{}\",\"scenario\":\"{}\",\"iterations\":{},\"distinct\":{},\"capped\":{},\"ok\":{},\"key\":\"{}\",\"detail\":\"{}\",\"sample\":\"{}\"}}",
         json_escape(&args[0]),
         json_escape(&scn),
         out.iterations,
         out.distinct.len(),
+        out.capped,
         out.failure.is_none(),
         json_escape(&key),
         json_escape(&detail.chars().take(1500).collect::<String>()),
